@@ -465,7 +465,8 @@ class Ctx:
         rec = {"property": self.pid, "query": q.name, "cbmc_property": prop, "description": descr,
                "nondet_log": nd, "defines": q.defines, "entry": q.entry,
                "sources": q.native_sources if q.native_sources is not None else q.sources,
-               "native_cxx": q.native_cxx, "native_flags": q.native_flags,
+               "native_cxx": q.native_cxx, "native_flags": q.native_flags, "native_lib_exclude": q.native_lib_exclude,
+               "native_c_sources": q.native_c_sources,
                "native_verdict": verdict, "native_output_tail": out[-1500:], "descr": q.descr}
         if verdict is None:
             rec["note"] = "NOT reproduced natively"
